@@ -82,6 +82,7 @@ DOCUMENTED_REFUSALS = [
     ('vdot shapes', r'cannot broadcast shapes'),
     ('einsum subscripts form', r'first einsum argument must be a string'),
     ('basis mask must be increasing', r'`indices` should be strictly monotonic increasing'),
+    ('basis mask out of range', r'`indices` out of range'),
 ]
 
 
@@ -1199,7 +1200,9 @@ class Take(Op):
 
     def gen(self, g):
         rng = g.rng
-        x = g.operand('bifc', ndim=(1, 3), need_array=True)
+        from vlib.c07_gen import is_sparse
+        fn = rng.random() < .35
+        x = g.operand('bifc', ndim=(1, 3), need_array=True, prefer=is_sparse if fn else None)
         nd = len(x.shape)
         form = rng.choice(['func', 'func', 'kw', 'flat'])
         if form == 'flat':
@@ -1211,7 +1214,7 @@ class Take(Op):
                 ax -= nd
         params = dict(axis=ax)
         ids = [x.id]
-        if rng.random() < .3:
+        if fn:
             inode = g.index_node(n, shape=[(), (2,), (3,), (2, 2)][int(rng.integers(4))] if rng.random() < .7 else None)
             if inode is None:
                 return None
@@ -1303,11 +1306,15 @@ class GetItem(Op):
 
     def gen(self, g, hostile=None):
         rng = g.rng
-        x = g.operand('bifc', ndim=(1, 3) if hostile or rng.random() < .95 else (0, 0), need_array=True)
+        from vlib.c07_gen import is_sparse
+        use_array = rng.random() < .4
+        x = g.operand('bifc', ndim=(2, 3) if hostile == 'multi_array' else (1, 3) if hostile or rng.random() < .95 else (0, 0), need_array=True, prefer=is_sparse if use_array else None)
         nd = len(x.shape)
         ids = [x.id]
         naxes = int(rng.integers(1, nd + 1)) if nd else 0      # number of axes addressed explicitly
-        use_array = nd > 0 and rng.random() < .4
+        if hostile == 'multi_array':
+            naxes = max(naxes, 2)
+        use_array = nd > 0 and use_array
         apos = int(rng.integers(naxes)) if use_array else None
         items, tags = [], set()
         for ax in range(naxes):
